@@ -24,6 +24,8 @@ def run(rep, tier, seed):
         dict(name="hist_drv_two_points", maxinstr=1, maxhist=3, ops="OpsDrvX", points="NoPts", seeds="NoSeeds", drvx="XCat", max_replay=40000),   # (all of them: a driver that remembers its last point shows in 10 of 28512 histories)
         dict(name="other_while_recording", maxinstr=3, maxhist=2, ops="OpsOtherRec", points="PtsP1small", seeds="SeedsB", max_replay=mr or 30000),
         dict(name="hist_seta", maxinstr=2, maxhist=3, ops="OpsH3", points="PtsP1small", seeds="SeedsB", max_replay=mr or 30000),
+        dict(name="hist_broadcast_assignment", maxinstr=2, maxhist=3, ops="OpsB2", points="PtsP1small", seeds="SeedsB", max_replay=mr or 30000),
+        dict(name="hist_prod_square_reciprocal", maxinstr=2, maxhist=3, ops="OpsB1", points="PtsD2b", seeds="SeedsB", max_replay=mr or 30000),
         dict(name="hist_div", maxinstr=2 if q else 3, maxhist=3, ops="OpsH2", points="PtsD2b", seeds="SeedsB", max_replay=mr or 30000),
     ]
     if not q:
